@@ -172,10 +172,10 @@ Example now_pool_decoder_no_hang :
          [DResetReader (bs "i7;"); DDecode tt]) =
   [ODUnit; ODecoded (DInt 7) None false].
 Proof. exact now_pool_dec_no_hang. Qed.
-Example now_simple_true :   (* a reused decoder switched to simple mode answers 'r1;' like NewDecoder does *)
+Example now_simple_true :   (* a reused decoder switched to simple mode answers 'r1;' like NewDecoder does: decode error, reference index out of range *)
   snd (dec_run unit dval drefs unit cerr [] tt all_fixed cdes
          (fst (dec_run unit dval drefs unit cerr [] tt all_fixed cdes (c_new_decoder dinput1) dhist)) dnext) =
-  [ODUnit; ODUnit; ODecoded DPanic None false].
+  [ODUnit; ODUnit; ODecoded DNil (Some EOther) false].
 Proof. exact now_simple_true_is_clean. Qed.
 (* the three schedules that broke the unlocked registry: with the lock the fatal step is not
    enabled (the reader waits), and once the builder has assigned the fields everybody is right *)
@@ -282,7 +282,7 @@ Proof. exact sessions_fresh. Qed.
 Example old_decoder_simple_true_refuted :
   snd (c_dec_run (fst (c_dec_run (c_new_decoder dinput1) dhist)) dnext) =
     [ODUnit; ODUnit; ODecoded (DStr (bs "hello")) None false] /\
-  snd (c_dec_run (c_new_decoder []) dnext) = [ODUnit; ODUnit; ODecoded DPanic None false].
+  snd (c_dec_run (c_new_decoder []) dnext) = [ODUnit; ODUnit; ODecoded DNil (Some EOther) false].
 Proof. exact dec_simple_true_refuted. Qed.
 
 (* [struct-encoder-published-before-fields] (fixed efd3d7f): the registry WITHOUT the lock.
